@@ -564,6 +564,11 @@ def run_case(case, ctx):
             st = np.array(float(seg[0]))
         elif kd == "mat":
             st = seg.reshape(_shape_for("mat", sizes[i]))
+            if case["id"] % 2:
+                # the same matrix in column-major memory (what a transposed view or a Fortran routine hands over): the design is the
+                # matrix, not its memory
+                st = np.asfortranarray(st) if case["id"] % 4 == 1 else np.ascontiguousarray(st.T).T
+                ctx.count("matrix_designs_in_column_major_memory")
         else:
             st = seg
         if share == "same-array" and i == 1:
